@@ -119,25 +119,34 @@ def back (a : List Nat) (k : Nat) : Nat := a.getD k 0
 
 def calcMemSize (off len : Nat) : Nat := if len = 0 then 0 else off + len
 
+/-- value of an operand expression (generated type `Opnd`: stack.Back(k) + c, or a constant) on the operand list -/
+def _root_.Aqv.Gen.VmFlags.Opnd.eval (a : List Nat) : Opnd → Nat
+  | .back k c => back a k + c
+  | .const c => c
+
+/-- memory_table.go as data: every function returns the maximum of calcMemSize(offset, size) over these (offset, size) pairs -/
+def memFnRanges : MemFn → List (Opnd × Opnd)
+  | .none => []
+  | .memorySha3 => [(.back 0 0, .back 1 0)]
+  | .memoryCallDataCopy => [(.back 0 0, .back 2 0)]
+  | .memoryReturnDataCopy => [(.back 0 0, .back 2 0)]
+  | .memoryCodeCopy => [(.back 0 0, .back 2 0)]
+  | .memoryExtCodeCopy => [(.back 1 0, .back 3 0)]
+  | .memoryMLoad => [(.back 0 0, .const 32)]
+  | .memoryMStore8 => [(.back 0 0, .const 1)]
+  | .memoryMStore => [(.back 0 0, .const 32)]
+  | .memoryCreate => [(.back 1 0, .back 2 0)]
+  | .memoryCall => [(.back 5 0, .back 6 0), (.back 3 0, .back 4 0)]
+  | .memoryDelegateCall => [(.back 4 0, .back 5 0), (.back 2 0, .back 3 0)]
+  | .memoryStaticCall => [(.back 4 0, .back 5 0), (.back 2 0, .back 3 0)]
+  | .memoryReturn => [(.back 0 0, .back 1 0)]
+  | .memoryRevert => [(.back 0 0, .back 1 0)]
+  | .memoryLog => [(.back 0 0, .back 1 0)]
+
 /-- operation.memorySize(stack) as a big.Int; `none` = nil function -/
 def memReq (f : MemFn) (a : List Nat) : Option Nat :=
-  match f with
-  | .none => none
-  | .memorySha3 => some (calcMemSize (back a 0) (back a 1))
-  | .memoryCallDataCopy => some (calcMemSize (back a 0) (back a 2))
-  | .memoryReturnDataCopy => some (calcMemSize (back a 0) (back a 2))
-  | .memoryCodeCopy => some (calcMemSize (back a 0) (back a 2))
-  | .memoryExtCodeCopy => some (calcMemSize (back a 1) (back a 3))
-  | .memoryMLoad => some (calcMemSize (back a 0) 32)
-  | .memoryMStore8 => some (calcMemSize (back a 0) 1)
-  | .memoryMStore => some (calcMemSize (back a 0) 32)
-  | .memoryCreate => some (calcMemSize (back a 1) (back a 2))
-  | .memoryCall => some (max (calcMemSize (back a 5) (back a 6)) (calcMemSize (back a 3) (back a 4)))
-  | .memoryDelegateCall => some (max (calcMemSize (back a 4) (back a 5)) (calcMemSize (back a 2) (back a 3)))
-  | .memoryStaticCall => some (max (calcMemSize (back a 4) (back a 5)) (calcMemSize (back a 2) (back a 3)))
-  | .memoryReturn => some (calcMemSize (back a 0) (back a 1))
-  | .memoryRevert => some (calcMemSize (back a 0) (back a 1))
-  | .memoryLog => some (calcMemSize (back a 0) (back a 1))
+  if f = .none then none
+  else some ((memFnRanges f).foldl (fun m r => max m (calcMemSize (r.1.eval a) (r.2.eval a))) 0)
 
 /-- common.go toWordSize -/
 def toWordSize (size : Nat) : Nat :=
